@@ -47,7 +47,7 @@ def gen(ctx, count, directed=False):
 
 
 def job_of(c, seed_override=None):
-    return {"kind": "savi_sweeps", "problem": c["spec"], "sweeps": c["sweeps"],
+    return {"kind": "savi_sweeps", "problem": c["spec"], "sweeps": c["sweeps"], "schedule": c.get("schedule"),
             "config": {"gamma": solverun.fl(c["g"]), "epsilon": solverun.fl(EPS), "max_batch_size": c["mb"], "shuffle_states": c["shuffle"],
                        "random_seed": c["random_seed"] if seed_override is None else seed_override, "convergence_test": "max_diff"}}
 
@@ -71,7 +71,7 @@ def oracle(c, r, devices):
     for k in range(c["sweeps"]):
         p = perms[k]
         ref.max_bits = 0
-        if c["shuffle"]:
+        if (c["schedule"][k] if c.get("schedule") else c["shuffle"]):
             if p is None or sorted(p) != list(range(n)):
                 return f"sweep {k + 1}: recorded order {p} is not a permutation of all states"
             if r["documented_perms"][k] != p:
@@ -116,6 +116,13 @@ def run(ctx, build):
     n_shuffled = 0
     redraw_ok = 0
     directed = gen(ctx, 10 if quick else 60, directed=True)
+    # shuffling switched on / off on a LIVE solver between sweeps (every schedule the solver can produce): the sweep compiled for
+    # one mode must not be reused for the other
+    toggled = []
+    for c in gen(ctx, 4 if quick else 24, directed=True):
+        sched = [False, False, True, True, False] if len(toggled) % 2 == 0 else [True, False, True, False, True]
+        toggled.append(dict(c, shuffle=sched[0], schedule=sched, sweeps=len(sched), mb=ctx.rng.choice([2, 3])))
+    cs = cs + toggled
     n_multibatch_per_device = 0
     for dv in devs:
         sub = cs if dv == 1 else directed + cs[: max(6, len(cs) // 4)]
@@ -136,7 +143,7 @@ def run(ctx, build):
             if c["shuffle"]:
                 n_shuffled += 1
                 ps = r["perms"] or r["documented_perms"]
-                if c["spec"]["nS"] >= 5 and len({tuple(p) for p in ps}) > 1:
+                if c["spec"]["nS"] >= 5 and len({tuple(p) for p in ps if p is not None}) > 1:
                     redraw_ok += 1
             items.append(coq_item(c, r, len(items), dv))
             meta.append(c)
@@ -164,7 +171,7 @@ def run(ctx, build):
     nontriv = {solverun.case_id([c["spec"]["nxt"], c["spec"]["rew"], c["spec"]["prb"], c["mb"], c["shuffle"], c["random_seed"], c["g"]])
                for c in cs if refsolve.layout(c["spec"]["nS"], c["mb"], 1)[1] >= 2}
     cov = {
-        "evaluations": total, "distinct_nontrivial": len(nontriv), "sweeps_compared": total * 3, "shuffled_cases": n_shuffled,
+        "evaluations": total, "distinct_nontrivial": len(nontriv), "sweeps_compared": total * 3, "shuffled_cases": n_shuffled, "cases_with_shuffling_toggled_between_sweeps": len(toggled),
         "fixed_order_multi_device_cases_with_several_batches_per_device": n_multibatch_per_device,
         "shuffled_cases_with_distinct_permutations_across_sweeps": redraw_ok, "hook_recorded_permutations": hook_on,
         "rule": "generated MDPs x max_batch_size x device count x fixed/shuffled order x random_seed, 3 sweeps each; every sweep compared with the model under BOTH scatter resolutions "
